@@ -4,10 +4,11 @@ by applying patch.diff to /repo, running ./check, and undoing the change. Writes
 Development / self-validation tool: not part of any registered command."""
 import glob, json, os, re, subprocess, sys
 root = os.path.dirname(os.path.dirname(os.path.abspath(__file__)))
+REPO = os.environ.get("VERIF_REPO", "/repo")  # (a scratch worktree for runs beside other work; ./check builds against it too)
 tier = sys.argv[1] if len(sys.argv) > 1 else "quick"
 only = sys.argv[2:]
-if subprocess.run(["git", "-C", "/repo", "diff", "--quiet"]).returncode != 0:
-    sys.exit("/repo has uncommitted changes")
+if subprocess.run(["git", "-C", REPO, "diff", "--quiet"]).returncode != 0:
+    sys.exit(REPO + " has uncommitted changes")
 results = {}
 rf = os.path.join(root, "seeded", "results.json")
 if os.path.exists(rf):
@@ -23,7 +24,7 @@ for d in sorted(glob.glob(os.path.join(root, "seeded", "C*-*"))):
         print(name, "obsolete (no longer breaks the property on the current tree)")
         continue
     beyond = meta.get("beyond_the_monitor")
-    a = subprocess.run(["git", "-C", "/repo", "apply", os.path.join(d, "patch.diff")], capture_output=True, text=True)
+    a = subprocess.run(["git", "-C", REPO, "apply", os.path.join(d, "patch.diff")], capture_output=True, text=True)
     if a.returncode != 0:
         results[name] = {"property": prop, "error": "patch does not apply: " + a.stderr.strip()}
         print(name, "PATCH DOES NOT APPLY")
@@ -31,8 +32,8 @@ for d in sorted(glob.glob(os.path.join(root, "seeded", "C*-*"))):
     try:
         p = subprocess.run(["./check", prop, tier], cwd=root, capture_output=True, text=True)
     finally:
-        subprocess.run(["git", "-C", "/repo", "checkout", "--", "."])
-        subprocess.run(["git", "-C", "/repo", "clean", "-fdq"])
+        subprocess.run(["git", "-C", REPO, "checkout", "--", "."])
+        subprocess.run(["git", "-C", REPO, "clean", "-fdq"])
     viol = [l for l in p.stdout.splitlines() if l.startswith("VIOLATION")]
     results[name] = {"property": prop, "tier": tier, "exit": p.returncode, "detected": p.returncode == 1 and len(viol) > 0,
                      "violation_lines": len(viol), "first_violations": sorted(set(re.sub(r".*#\s*", "", l) for l in viol))[:4]}
